@@ -43,30 +43,62 @@ fn attrs(f: &NetworkFilter, line: &str) -> Value {
 /// swept around powers of two (bucket sizes, fused-group sizes, regex-set sizes), each rule matched
 /// by exactly one URL; near-twin groups with other masks in the same bucket; long $domain= lists on
 /// rules and on badfilter near-twins (never true twins, so nothing may be cancelled).
-fn family_list(rng: &mut Rng) -> (Vec<String>, Vec<(String, String)>) {
+type ClaimUrl = (String, String, Vec<Value>, Vec<Value>);
+
+fn ast(line: &str, left: &str, body: &str, right: bool, exc: bool, opt: &str, dom: &[String], ndom: &[String]) -> Value {
+    let (mut pos, mut neg, mut party) = (vec![], vec![], "any");
+    for o in opt.trim_start_matches('$').split(',').filter(|o| !o.is_empty()) {
+        match o {
+            "third-party" => party = "3p",
+            "first-party" => party = "1p",
+            x if x.starts_with('~') => neg.push(x[1..].to_string()),
+            x => pos.push(x.to_string()),
+        }
+    }
+    json!({"line": line, "left": left, "body": body, "right": right, "exc": exc, "pos": pos, "neg": neg, "party": party, "dom": dom, "ndom": ndom})
+}
+
+fn family_list(rng: &mut Rng, counter: &mut usize) -> (Vec<String>, Vec<ClaimUrl>) {
     let mut lines = vec![];
-    let mut urls = vec![];
-    let sizes = [1usize, 2, 3, 31, 32, 33, 63, 64, 65, 66, 127, 128, 129, 130, 255, 256, 257, 300, 513];
-    let nfam = 2 + rng.below(4);
+    let mut urls: Vec<ClaimUrl> = vec![];
+    // thresholds first: whatever the tier, sizes around 64/128/256 and a few hundred come up
+    let sizes = [65usize, 129, 300, 64, 257, 128, 513, 66, 130, 33, 127, 63, 256, 255, 31, 32, 2, 3, 1];
+    let nfam = 3 + rng.below(3);
     for f in 0..nfam {
-        let n = sizes[rng.below(sizes.len())];
+        // sizes are taken in order across the families of a run, so that even a short run covers the
+        // thresholds; large groups are regex-shaped (they become one regex set when fused)
+        let n = sizes[*counter % sizes.len()];
+        *counter += 1;
         let word = format!("fam{}x{}", f, rng.below(1000));
-        let shape = rng.below(6);
+        let shape = if n >= 257 { [1usize, 2, 4][rng.below(3)] } else { rng.below(6) };
         let opt = ["", "$script", "$third-party", "$image,script", "$~image", ""][rng.below(6)];
         let exc = rng.chance(1, 5);
         for k in 0..n {
+            // every rule of a family shares the family word as its only usable token (the member number is
+            // a trailing token, or sits next to a '*'), so the whole family lands in ONE bucket with ONE
+            // option mask: bucket sizes, fused-group sizes and regex-set sizes all equal the family size
             let (pat, url) = match shape {
-                0 => (format!("/{}/slot-{:03}.", word, k), format!("https://cdn.example.net/{}/slot-{:03}.js", word, k)),
-                1 => (format!("/{}/*-{:03}^", word, k), format!("https://cdn.example.net/{}/banner-{:03}/x", word, k)),
+                0 => (format!("/{}/slot-{:03}", word, k), format!("https://cdn.example.net/{}/slot-{:03}.js", word, k)),
+                1 => (format!("/{}/*x{:03}", word, k), format!("https://cdn.example.net/{}/banner-x{:03}.png", word, k)),
                 2 => (format!("/{}{:03}*.gif", word, k), format!("https://img.example.org/{}{:03}_top.gif?cb=1", word, k)),
-                3 => (format!("-{}-{:03}-", word, k), format!("https://a.example.com/x-{}-{:03}-y.js", word, k)),
-                4 => (format!("/{}/p{:03}|", word, k), format!("https://a.example.com/q/{}/p{:03}", word, k)),
-                _ => (format!("|https://{}.example.com/{:03}/", word, k), format!("https://{}.example.com/{:03}/i.js", word, k)),
+                3 => (format!("-{}-{:03}", word, k), format!("https://a.example.com/x-{}-{:03}.js", word, k)),
+                4 => (format!("/{}/p*{:03}|", word, k), format!("https://a.example.com/q/{}/page{:03}", word, k)),
+                _ => (format!("|https://cdn.example.com/{}/s{:03}", word, k), format!("https://cdn.example.com/{}/s{:03}.js", word, k)),
             };
-            lines.push(format!("{}{}{}", if exc { "@@" } else { "" }, pat, opt));
+            let line = format!("{}{}{}", if exc { "@@" } else { "" }, pat, opt);
             if k % 7 == 0 || k + 2 >= n || n <= 66 {
-                urls.push((url, "script".to_string()));
+                let (left, body, right) = if let Some(b) = pat.strip_prefix('|') { ("pipe", b.to_string(), false) }
+                    else if let Some(b) = pat.strip_suffix('|') { ("none", b.to_string(), true) } else { ("none", pat.clone(), false) };
+                let a = ast(&line, left, &body, right, exc, opt, &[], &[]);
+                urls.push((url.clone(), "script".to_string(), vec![a.clone()], vec![]));
+                if k % 21 == 0 && shape != 4 && shape != 5 {
+                    // the same target behind 140 one-character runs (few tokens, many runs)
+                    let q: String = (0..70).map(|i| format!("{}={}&", (b'a' + (i % 26) as u8) as char, i % 10)).collect();
+                    let tail = url.splitn(4, '/').nth(3).unwrap_or("");
+                    urls.push((format!("https://t.example.net/?{}u=/{}", q, tail), "script".to_string(), vec![a], vec![]));
+                }
             }
+            lines.push(line);
         }
         if exc {
             lines.push(format!("/{}", word)); // something for the exceptions to except
@@ -74,24 +106,33 @@ fn family_list(rng: &mut Rng) -> (Vec<String>, Vec<(String, String)>) {
     }
     // long domain lists; a badfilter near-twin whose list differs in one entry
     for j in 0..(1 + rng.below(3)) {
-        let n = [1usize, 2, 5, 8, 14, 20, 40][rng.below(7)];
+        let n = [1usize, 2, 5, 8, 14, 16, 17, 20, 33, 40][rng.below(10)];
         let doms: Vec<String> = (0..n).map(|i| format!("news{:02}x{}.example.org", i, j)).collect();
         let mut other = doms.clone();
         let k = rng.below(n);
         other[k] = format!("other{:02}x{}.example.org", k, j);
         let neg = rng.chance(1, 3);
         let fmt = |d: &Vec<String>| d.iter().map(|x| if neg { format!("~{}", x) } else { x.clone() }).collect::<Vec<_>>().join("|");
-        lines.push(format!("/dl{}/ad.$domain={}", j, fmt(&doms)));
+        let line = format!("/dl{}/ad.$domain={}", j, fmt(&doms));
+        lines.push(line.clone());
         lines.push(format!("/dl{}/ad.$domain={},badfilter", j, fmt(&other)));
-        urls.push((format!("https://x.example.com/dl{}/ad.js#src=https://{}/", j, doms[0]), "script".to_string()));
-        urls.push((format!("https://x.example.com/dl{}/ad.js#src=https://{}/", j, other[k]), "script".to_string()));
+        let body = format!("/dl{}/ad.", j);
+        let a = if neg { ast(&line, "none", &body, false, false, "", &[], &doms) } else { ast(&line, "none", &body, false, false, "", &doms, &[]) };
+        // a request from EVERY listed domain (and from a deep subdomain of it), and from one that is not listed
+        for (i, d) in doms.iter().enumerate() {
+            let src = if i % 3 == 0 { format!("l1.l2.l3.l4.l5.l6.l7.l8.l9.{}", d) } else { d.clone() };
+            let u = format!("https://x.example.com/dl{}/ad.js#src=https://{}/", j, src);
+            if neg { urls.push((u, "script".to_string(), vec![], vec![a.clone()])) } else { urls.push((u, "script".to_string(), vec![a.clone()], vec![])) }
+        }
+        let u = format!("https://x.example.com/dl{}/ad.js#src=https://{}/", j, other[k]);
+        if neg { urls.push((u, "script".to_string(), vec![a.clone()], vec![])) } else { urls.push((u, "script".to_string(), vec![], vec![a.clone()])) }
     }
     // raw non-ASCII characters where a separator has to match
     lines.push("/uni/*img^".to_string());
     lines.push("/uni/*pixel^".to_string());
     lines.push("/uni2^x".to_string());
     for u in ["https://u.example.com/uni/v2/imgé.gif", "https://u.example.com/uni/v2/img→.gif", "https://u.example.com/uni/pixel日", "https://u.example.com/uni2→x", "https://u.example.com/uni2/x"] {
-        urls.push((u.to_string(), "image".to_string()));
+        urls.push((u.to_string(), "image".to_string(), vec![], vec![]));
     }
     (lines, urls)
 }
@@ -107,14 +148,15 @@ pub fn record_c01(out: &str, seed: u64, n_lists: usize, reqs_per_list: usize) {
     let mut nontrivial = 0u64;
     let mut samples = vec![];
     let mut lost_guard = 0u64;
+    let mut fam_counter = 0usize;
     for li in 0..n_lists {
         // a list: the rules attached to a sample of recorded requests + random corpus lines + adversarial variants
         let mut lines: Vec<String> = vec![];
         let mut picked: Vec<usize> = vec![];
-        let mut fam_urls: Vec<(String, String)> = vec![];
+        let mut fam_urls: Vec<ClaimUrl> = vec![];
         let family = li % 2 == 1;
         if family {
-            let (l, u) = family_list(&mut rng);
+            let (l, u) = family_list(&mut rng, &mut fam_counter);
             lines = l;
             fam_urls = u;
         }
@@ -143,7 +185,7 @@ pub fn record_c01(out: &str, seed: u64, n_lists: usize, reqs_per_list: usize) {
         }
         let parsed: Vec<(String, NetworkFilter)> = lines.iter()
             .filter_map(|l| NetworkFilter::parse(l, true, Default::default()).ok().map(|f| (l.clone(), f)))
-            .filter(|(_, f)| !(f.is_redirect() && f.tag.is_some()) && !(f.is_removeparam() && f.tag.is_some()))
+            .filter(|(l, f)| { let tagged = l.contains("tag="); !(f.is_redirect() && tagged) && !(f.is_removeparam() && tagged) })
             .collect();
         let texts: Vec<String> = parsed.iter().map(|(l, _)| l.clone()).collect();
         let tags: Vec<String> = if rng.chance(1, 2) { vec![] } else { vec!["fb-embeds".into(), "twitter-embeds".into()] };
@@ -155,22 +197,28 @@ pub fn record_c01(out: &str, seed: u64, n_lists: usize, reqs_per_list: usize) {
             engines.push(e);
         }
         // requests: the recorded ones (with a parseable source) and mutations that move token boundaries
-        let mut urls: Vec<(String, String)> = fam_urls;
+        let mut urls: Vec<ClaimUrl> = fam_urls;
         for &i in &picked {
-            urls.push((reqs[i].url.clone(), reqs[i].ty.clone()));
+            urls.push((reqs[i].url.clone(), reqs[i].ty.clone(), vec![], vec![]));
             let u = &reqs[i].url;
             if let Some(p) = u.find("://") {
                 if let Some(slash) = u[p + 3..].find('/') {
                     let cut = p + 3 + slash + 1;
                     // prepend a letter to the first path token, append one to the last
-                    urls.push((format!("{}x{}", &u[..cut], &u[cut..]), reqs[i].ty.clone()));
-                    urls.push((format!("{}z", u), reqs[i].ty.clone()));
-                    urls.push((format!("{}?utm_source=a&fbclid=1&x=2", u.split('?').next().unwrap_or(u)), "document".to_string()));
+                    urls.push((format!("{}x{}", &u[..cut], &u[cut..]), reqs[i].ty.clone(), vec![], vec![]));
+                    urls.push((format!("{}z", u), reqs[i].ty.clone(), vec![], vec![]));
+                    urls.push((format!("{}?utm_source=a&fbclid=1&x=2", u.split('?').next().unwrap_or(u)), "document".to_string(), vec![], vec![]));
+                    // many one-character runs but few tokens: the 127-token limit counts tokens, not runs
+                    if rng.chance(1, 6) {
+                        let q: String = (0..70).map(|k| format!("&{}={}", (b'a' + (k % 26) as u8) as char, k % 10)).collect();
+                        let sep = if u.contains('?') { "" } else { "?v=1" };
+                        urls.push((format!("{}{}{}", u, sep, q), reqs[i].ty.clone(), vec![], vec![]));
+                    }
                 }
             }
         }
         let mut rm = RegexManager::default();
-        for (url, ty) in urls {
+        for (url, ty, must, mustnot) in urls {
             let (url, src) = match url.split_once("#src=") {
                 Some((u, s)) => (u.to_string(), s.to_string()),
                 None => (url.clone(), sources[rng.below(sources.len())].to_string()),
@@ -199,7 +247,8 @@ pub fn record_c01(out: &str, seed: u64, n_lists: usize, reqs_per_list: usize) {
             }
             let scheme = if req.is_http { "http" } else { "https" };
             let ev = json!({"list": format!("L{}:{} rules", li, texts.len()), "url": req.url, "src": "news-site.example", "source": src, "type": ty, "scheme": scheme,
-                            "tp": req.is_third_party, "tags": tags, "hits": hits, "obs": obs});
+                            "tp": req.is_third_party, "tags": tags, "hits": hits, "obs": obs, "must": must, "mustnot": mustnot,
+                            "srchost": Request::new(&src, "", "").map(|r| r.hostname).unwrap_or_default()});
             if samples.len() < 3 && ev["hits"].as_array().map(|a| a.len() >= 2).unwrap_or(false) {
                 samples.push(ev.clone());
             }
